@@ -16,7 +16,10 @@ use crate::{
 use pyo3::prelude::*;
 use socket2::{Domain, Protocol, Socket, Type};
 use std::net::SocketAddr;
-use std::time::Duration;
+use std::time::{Duration, Instant};
+
+// Shorter timeouts may be rounded down to zero, which means `wait forever`
+const MIN_READ_TIMEOUT: Duration = Duration::from_millis(1);
 
 pub(crate) trait SnmpSocket
 where
@@ -127,11 +130,42 @@ where
         T: PyOp<'a, V>,
         V: 'a,
     {
+        // The read timeout of the blocking socket limits the whole call,
+        // not every single recv of the loop skipping unwanted replies
+        let timeout = self.get_io().read_timeout().ok().flatten();
+        let deadline = timeout.map(|t| Instant::now() + t);
+        let r = self._recv_until::<T, V>(iter, deadline);
+        if timeout.is_some() {
+            // Restore configured timeout
+            let _ = self.get_io().set_read_timeout(timeout);
+        }
+        r
+    }
+
+    fn _recv_until<'a, T, V>(
+        &mut self,
+        iter: Option<&mut GetIter>,
+        deadline: Option<Instant>,
+    ) -> PyResult<PyObject>
+    where
+        T: PyOp<'a, V>,
+        V: 'a,
+    {
         // Get buffer from pool
         let mut h = get_buffer_pool().acquire();
         let buf = h.as_mut();
         // We can catch unwanted replies, so do it in a loop
         loop {
+            if let Some(d) = deadline {
+                // Wait for the rest of the timeout only
+                let left = d.saturating_duration_since(Instant::now());
+                if left < MIN_READ_TIMEOUT {
+                    return Err(SnmpError::WouldBlock.into());
+                }
+                self.get_io()
+                    .set_read_timeout(Some(left))
+                    .map_err(|e| SnmpError::SocketError(e.to_string()))?;
+            }
             // Nested scope to release io early after receiving message
             let msg = {
                 let io = self.get_io();
